@@ -532,10 +532,54 @@ Proof.
   - intros _. apply P. intros E. rewrite E in Nth. destruct i; discriminate.
 Qed.
 
+Lemma get_log_id_idx_spec : forall ls ids k i d,
+  get_log_id_idx ls ids k = Ok (Some (i, d)) ->
+  k <= i /\ nth_error ls (i - k) = Some d /\ ids = id_of_bit (lbit d).
+Proof.
+  induction ls as [|a r IH]; intros ids k i d H; cbn [get_log_id_idx] in H; [discriminate|].
+  destruct (N.testbit ids (N.of_nat (lbit a))).
+  - destruct (N.eqb_spec ids (id_of_bit (lbit a))) as [E|NE]; [|discriminate].
+    injection H as <- <-. rewrite Nat.sub_diag. auto.
+  - destruct (IH _ _ _ _ H) as [L [Nth E]]. split; [lia|]. split; [|exact E].
+    replace (i - k) with (S (i - S k)) by lia. exact Nth.
+Qed.
+
+Lemma add_dest_at_inv : forall w i d dn,
+  WInv w -> nth_error (logs w) i = Some d -> WInv (fst (add_dest_at w i d dn)).
+Proof.
+  intros w i d dn I Nth. pose proof I as [B M N L P]. unfold add_dest_at. cbn [fst].
+  assert (LI : log_inv d) by (rewrite Forall_forall in L; apply L; eapply nth_error_In; eauto).
+  pose proof (set_log_inv w i d {| lfil := lfil (llog d);
+      ldests := ldests (llog d) ++ [{| dname := dn; dfil := new_filters |}] |} I Nth) as [B' M' N' L' P'].
+  { destruct LI as [LF LD]. split; cbn; [exact LF|].
+    apply Forall_app. split; [exact LD|]. constructor; [exact new_filters_inv|constructor]. }
+  constructor; cbn [logs next_bit pol]; auto. intros _. apply ctor_policy_some.
+Qed.
+
+Lemma set_at_inv : forall w i d dest s,
+  WInv w -> nth_error (logs w) i = Some d -> WInv (fst (set_at w i d dest s)).
+Proof.
+  intros w i d dest s I Nth. pose proof I as [B M N L P]. unfold set_at.
+  assert (LI : log_inv d) by (rewrite Forall_forall in L; apply L; eapply nth_error_In; eauto).
+  destruct LI as [LF LD].
+  destruct (pol w) as [p|]; [|exact I].
+  destruct dest as [dn|].
+  - destruct (find_dest dn (ldests (llog d)) 0) as [[j dd]|] eqn:FD; [|exact I].
+    destruct (find_dest_spec _ _ _ _ _ FD) as [_ Nd]. rewrite Nat.sub_0_r in Nd.
+    destruct (check_set_filter p s (dfil dd)) as [fs| |] eqn:C; try exact I. cbn [fst].
+    apply set_log_inv; [exact I|exact Nth|]. split; cbn; [exact LF|].
+    apply replace_nth_Forall; [|exact LD]. cbn.
+    eapply check_set_filter_inv; [|exact C].
+    rewrite Forall_forall in LD. apply LD. eapply nth_error_In; eauto.
+  - destruct (check_set_filter p s (lfil (llog d))) as [fs| |] eqn:C; try exact I. cbn [fst].
+    apply set_log_inv; [exact I|exact Nth|]. split; cbn; [|exact LD].
+    eapply check_set_filter_inv; eauto.
+Qed.
+
 Lemma step_inv : forall w o, WInv w -> WInv (fst (step w o)).
 Proof.
-  intros w o I. destruct I as [B M N L P] eqn:EI. clear EI.
-  destruct o as [p|name|ln dn|tg s]; cbn [step].
+  intros w o I. pose proof I as [B M N L P].
+  destruct o as [p|name|ln dn|tg s|ids dn|ids dest s]; cbn [step].
   - constructor; cbn; auto. discriminate.
   - unfold find_create_log. destruct (find_log name (logs w) 0) as [[i d]|] eqn:F; [exact I|].
     destruct (Nat.eqb_spec (next_bit w) 31) as [E|NE]; [exact I|].
@@ -546,30 +590,18 @@ Proof.
     + apply Forall_app. split; [exact L|]. constructor; [|constructor].
       split; cbn; [exact new_filters_inv|constructor].
     + intros _. apply ctor_policy_some.
-  - destruct (find_log ln (logs w) 0) as [[i d]|] eqn:F; [|exact I]. cbn [fst].
+  - destruct (find_log ln (logs w) 0) as [[i d]|] eqn:F; [|exact I].
     destruct (find_log_spec _ _ _ _ _ F) as [_ [Nth _]]. rewrite Nat.sub_0_r in Nth.
-    assert (LI : log_inv d) by (rewrite Forall_forall in L; apply L; eapply nth_error_In; eauto).
-    pose proof (set_log_inv w i d {| lfil := lfil (llog d);
-        ldests := ldests (llog d) ++ [{| dname := dn; dfil := new_filters |}] |} I Nth) as [B' M' N' L' P'].
-    { destruct LI as [LF LD]. split; cbn; [exact LF|].
-      apply Forall_app. split; [exact LD|]. constructor; [exact new_filters_inv|constructor]. }
-    constructor; cbn [logs next_bit pol]; auto. intros _. apply ctor_policy_some.
+    now apply add_dest_at_inv.
   - destruct (find_log _ (logs w) 0) as [[i d]|] eqn:F; [|exact I].
     destruct (find_log_spec _ _ _ _ _ F) as [_ [Nth _]]. rewrite Nat.sub_0_r in Nth.
-    assert (LI : log_inv d) by (rewrite Forall_forall in L; apply L; eapply nth_error_In; eauto).
-    destruct LI as [LF LD].
-    destruct (pol w) as [p|]; [|exact I].
-    destruct tg as [l|l dn].
-    + destruct (check_set_filter p s (lfil (llog d))) as [fs| |] eqn:C; try exact I. cbn [fst].
-      apply set_log_inv; [exact I|exact Nth|]. split; cbn; [|exact LD].
-      eapply check_set_filter_inv; eauto.
-    + destruct (find_dest dn (ldests (llog d)) 0) as [[j dd]|] eqn:FD; [|exact I].
-      destruct (find_dest_spec _ _ _ _ _ FD) as [_ Nd]. rewrite Nat.sub_0_r in Nd.
-      destruct (check_set_filter p s (dfil dd)) as [fs| |] eqn:C; try exact I. cbn [fst].
-      apply set_log_inv; [exact I|exact Nth|]. split; cbn; [exact LF|].
-      apply replace_nth_Forall; [|exact LD]. cbn.
-      eapply check_set_filter_inv; [|exact C].
-      rewrite Forall_forall in LD. apply LD. eapply nth_error_In; eauto.
+    now apply set_at_inv.
+  - destruct (get_log_id_idx (logs w) ids 0) as [[[i d]|]| |] eqn:F; try exact I.
+    destruct (get_log_id_idx_spec _ _ _ _ _ F) as [_ [Nth _]]. rewrite Nat.sub_0_r in Nth.
+    now apply add_dest_at_inv.
+  - destruct (get_log_id_idx (logs w) ids 0) as [[[i d]|]| |] eqn:F; try exact I.
+    destruct (get_log_id_idx_spec _ _ _ _ _ F) as [_ [Nth _]]. rewrite Nat.sub_0_r in Nth.
+    now apply set_at_inv.
 Qed.
 
 Lemma run_inv : forall ops w, WInv w -> WInv (fst (run w ops)).
@@ -588,18 +620,25 @@ Proof. intros p w [B M N L P]. constructor; cbn; auto. discriminate. Qed.
 (** only setDuplicatePolicy changes a policy that has been set *)
 Definition is_policy_op (o : op) : bool := match o with OPolicy _ => true | _ => false end.
 
+Lemma set_at_policy : forall w i d dest s p,
+  pol w = Some p -> pol (fst (set_at w i d dest s)) = Some p.
+Proof.
+  intros w i d dest s p H. unfold set_at. rewrite H. destruct dest as [dn|].
+  - destruct (find_dest _ _ _) as [[j dd]|]; [|exact H].
+    destruct (check_set_filter _ _ _); exact H.
+  - destruct (check_set_filter _ _ _); exact H.
+Qed.
+
 Lemma step_policy : forall w o p,
   pol w = Some p -> is_policy_op o = false -> pol (fst (step w o)) = Some p.
 Proof.
-  intros w o p H NP. destruct o as [q|name|ln dn|tg s]; cbn [step]; [discriminate| | |].
+  intros w o p H NP. destruct o as [q|name|ln dn|tg s|ids dn|ids dest s]; cbn [step]; [discriminate| | | | |].
   - unfold find_create_log. destruct (find_log name (logs w) 0) as [[i d]|]; [exact H|].
     destruct (next_bit w =? 31); [exact H|]. cbn. now rewrite H.
   - destruct (find_log ln (logs w) 0) as [[i d]|]; [|exact H]. cbn. now rewrite H.
-  - destruct (find_log _ (logs w) 0) as [[i d]|]; [|exact H]. rewrite H.
-    destruct tg as [l|l dn].
-    + destruct (check_set_filter _ _ _); exact H.
-    + destruct (find_dest _ _ _) as [[j dd]|]; [|exact H].
-      destruct (check_set_filter _ _ _); exact H.
+  - destruct (find_log _ (logs w) 0) as [[i d]|]; [|exact H]. now apply set_at_policy.
+  - destruct (get_log_id_idx (logs w) ids 0) as [[[i d]|]| |]; try exact H. cbn. now rewrite H.
+  - destruct (get_log_id_idx (logs w) ids 0) as [[[i d]|]| |]; try exact H. now apply set_at_policy.
 Qed.
 
 Lemma policy_stable : forall ops w p,
@@ -637,7 +676,7 @@ Proof.
   assert (P1 : pol w1 = Some p) by (apply policy_stable; [reflexivity|exact NP]).
   destruct (find_log_spec _ _ _ _ _ F) as [_ [Nth _]]. rewrite Nat.sub_0_r in Nth.
   assert (Li : i < List.length (logs w1)) by (apply nth_error_Some; congruence).
-  cbn [step]. rewrite F, P1. destruct p.
+  cbn [step target_log target_dest]. rewrite F. unfold set_at. rewrite P1. destruct p.
   - destruct (dup_ignore _ _ _ FT) as [fs' [C E]]. rewrite C.
     eexists. split; [reflexivity|]. eexists. split; [apply nth_error_replace_nth, Li|exact E].
   - now rewrite (dup_exception _ _ _ FT).
@@ -771,7 +810,7 @@ Proof. intros w ids l c [B M N L P]. now apply discard_id_sound_list. Qed.
 Lemma discard_name_sound : forall w name l c,
   WInv w -> c < 7 -> discard_name (logs w) name l = Ok true -> log_name (logs w) name (l, c) = Ok [].
 Proof.
-  intros w name l c [B M N L P] Hc D. unfold discard_name, log_name in *.
+  intros w name l c [B M N L P] Hc D. unfold discard_name, get_log_name, log_name in *.
   destruct (find_log name (logs w) 0) as [[i ld]|] eqn:F; [|reflexivity].
   destruct (find_log_spec _ _ _ _ _ F) as [_ [Nth _]].
   assert (LI : log_inv ld) by (rewrite Forall_forall in L; apply L; eapply nth_error_In; eauto).
@@ -781,7 +820,7 @@ Qed.
 (** the pre-check itself never faults and only throws for an id mask naming several logs *)
 Lemma discard_name_total : forall w name l, WInv w -> exists b, discard_name (logs w) name l = Ok b.
 Proof.
-  intros w name l [B M N L P]. unfold discard_name.
+  intros w name l [B M N L P]. unfold discard_name, get_log_name.
   destruct (find_log name (logs w) 0) as [[i ld]|] eqn:F; [|cbn; eauto].
   destruct (find_log_spec _ _ _ _ _ F) as [_ [Nth _]].
   assert (LI : log_inv ld) by (rewrite Forall_forall in L; apply L; eapply nth_error_In; eauto).
@@ -894,3 +933,124 @@ Definition check_level_tables : bool :=
      end) (seq 0 7)) (seq 0 7)) (seq 0 7).
 Lemma check_level_tables_ok : check_level_tables = true.
 Proof. vm_compute. reflexivity. Qed.
+
+
+(* ------------------------------------------------------------------ *)
+(** * Addressing a log by name = addressing it by its id; the guarded macros *)
+
+Lemma NoDup_map_inj {A B} (g : A -> B) : forall (l : list A) a b,
+  NoDup (map g l) -> In a l -> In b l -> g a = g b -> a = b.
+Proof.
+  induction l as [|x l IH]; intros a b ND Ia Ib E; [contradiction|].
+  cbn in ND. inversion ND as [|? ? NI ND']; subst.
+  destruct Ia as [->|Ia], Ib as [->|Ib]; auto.
+  - exfalso. apply NI. rewrite E. now apply in_map.
+  - exfalso. apply NI. rewrite <- E. now apply in_map.
+Qed.
+
+(** the lookup by name finds exactly the log with that name, whatever was created
+    before it (names that are prefixes of each other included) *)
+Lemma find_log_exact : forall name ls k ld,
+  NoDup (map lname ls) -> In ld ls -> lname ld = name ->
+  exists i, find_log name ls k = Some (i, ld).
+Proof.
+  induction ls as [|a r IH]; intros k ld ND I E; [contradiction|].
+  cbn in ND. inversion ND as [|? ? NI ND']; subst. cbn [find_log].
+  destruct (String.eqb_spec (lname ld) (lname a)) as [Ea|Na].
+  - destruct I as [->|I]; [eauto|]. exfalso. apply NI. rewrite <- Ea. now apply in_map.
+  - destruct I as [->|I]; [contradiction|]. now apply IH.
+Qed.
+
+Lemma find_log_unknown : forall name ls k,
+  ~ In name (map lname ls) -> find_log name ls k = None.
+Proof.
+  induction ls as [|a r IH]; intros k NI; [reflexivity|]. cbn in *.
+  destruct (String.eqb_spec name (lname a)) as [E|_]; [exfalso; auto|]. apply IH. tauto.
+Qed.
+
+Lemma get_log_id_single : forall ls ld,
+  NoDup (map lbit ls) -> In ld ls -> get_log_id ls (id_of_bit (lbit ld)) = Ok (Some ld).
+Proof.
+  induction ls as [|a r IH]; intros ld ND I; [contradiction|].
+  cbn in ND. inversion ND as [|? ? NI ND']; subst. cbn [get_log_id].
+  rewrite selected_single. destruct (Nat.eqb_spec (lbit ld) (lbit a)) as [E|NE].
+  - rewrite E, N.eqb_refl. destruct I as [->|I]; [reflexivity|].
+    exfalso. apply NI. rewrite <- E. now apply in_map.
+  - destruct I as [->|I]; [contradiction|]. now apply IH.
+Qed.
+
+Lemma flat_map_ext_in {A B} (f g : A -> list B) : forall l,
+  (forall a, In a l -> f a = g a) -> flat_map f l = flat_map g l.
+Proof.
+  induction l as [|a l IH]; intros H; [reflexivity|]. cbn.
+  rewrite (H a) by now left. rewrite IH; [reflexivity|]. intros b Hb. apply H. now right.
+Qed.
+
+Lemma by_name_is_by_id : forall w name ld m,
+  WInv w -> snd m < 7 -> In ld (logs w) -> lname ld = name ->
+  get_log_name (logs w) name = Some ld /\
+  log_name (logs w) name m = log_ids (logs w) (id_of_bit (lbit ld)) m /\
+  discard_name (logs w) name (fst m) = discard_id (logs w) (id_of_bit (lbit ld)) (fst m).
+Proof.
+  intros w name ld m I Hc In E. pose proof I as [B M N L P].
+  assert (NB : NoDup (map lbit (logs w))) by (rewrite B; apply seq_NoDup).
+  destruct (find_log_exact name (logs w) 0 ld N In E) as [i F].
+  assert (G : get_log_name (logs w) name = Some ld) by (unfold get_log_name; now rewrite F).
+  split; [exact G|]. split.
+  - rewrite routing_by_name, routing_exact by assumption. f_equal.
+    unfold expected_deliveries. apply flat_map_ext_in. intros a Ia.
+    rewrite selected_single.
+    destruct (String.eqb_spec name (lname a)) as [Ea|Na];
+      destruct (Nat.eqb_spec (lbit ld) (lbit a)) as [Eb|Nb]; try reflexivity.
+    + exfalso. apply Nb. f_equal. apply (NoDup_map_inj lname (logs w)); auto. congruence.
+    + exfalso. apply Na. rewrite <- E. f_equal. apply (NoDup_map_inj lbit (logs w)); auto.
+  - unfold discard_name, discard_id. rewrite G, get_log_id_single by assumption. reflexivity.
+Qed.
+
+Lemma unknown_name : forall w name m,
+  ~ In name (map lname (logs w)) ->
+  get_log_name (logs w) name = None /\ log_name (logs w) name m = Ok [] /\
+  discard_name (logs w) name (fst m) = Ok true /\ macro_name (logs w) name m = Ok [].
+Proof.
+  intros w name m NI. pose proof (find_log_unknown name (logs w) 0 NI) as F.
+  unfold macro_name, discard_name, get_log_name, log_name. rewrite F. cbn. auto.
+Qed.
+
+(** the guarded macro delivers exactly what the unguarded send delivers *)
+Lemma macro_name_exact : forall w name m,
+  WInv w -> snd m < 7 -> name <> EmptyString ->
+  macro_name (logs w) name m = log_name (logs w) name m.
+Proof.
+  intros w name [l c] I Hc NE. unfold macro_name. cbn [fst snd] in *.
+  destruct (discard_name_total w name l I) as [b D]. rewrite D. cbn [bind].
+  destruct b.
+  - symmetry. now apply discard_name_sound.
+  - destruct name; [contradiction|reflexivity].
+Qed.
+
+Lemma macro_ids_exact : forall w ld m,
+  WInv w -> snd m < 7 -> In ld (logs w) ->
+  macro_ids (logs w) (id_of_bit (lbit ld)) m = log_ids (logs w) (id_of_bit (lbit ld)) m.
+Proof.
+  intros w ld [l c] I Hc In. pose proof I as [B M N L P]. cbn [fst snd] in *.
+  assert (NB : NoDup (map lbit (logs w))) by (rewrite B; apply seq_NoDup).
+  unfold macro_ids. cbn [fst].
+  assert (LI : log_inv ld) by (rewrite Forall_forall in L; now apply L).
+  destruct (process_level_total (lfil (llog ld)) l (proj1 LI)) as [b PL].
+  assert (D : discard_id (logs w) (id_of_bit (lbit ld)) l = Ok (negb b)).
+  { unfold discard_id. rewrite get_log_id_single by assumption. cbn. now rewrite PL. }
+  rewrite D. cbn [bind]. destruct b; cbn [negb].
+  - assert (Z : N.eqb (id_of_bit (lbit ld)) 0 = false).
+    { apply N.eqb_neq. unfold id_of_bit. rewrite N.shiftl_1_l. apply N.pow_nonzero. discriminate. }
+    now rewrite Z.
+  - symmetry. apply discard_id_sound; assumption.
+Qed.
+
+Lemma macro_by_name_is_by_id : forall w name ld m,
+  WInv w -> snd m < 7 -> In ld (logs w) -> lname ld = name -> name <> EmptyString ->
+  macro_name (logs w) name m = macro_ids (logs w) (id_of_bit (lbit ld)) m.
+Proof.
+  intros w name ld m I Hc In E NE.
+  rewrite macro_name_exact, macro_ids_exact by assumption.
+  now destruct (by_name_is_by_id w name ld m I Hc In E) as [_ [H _]].
+Qed.
